@@ -24,10 +24,13 @@ PROPS = {
         signature=sig_c18,
         rule="LEVEL: partial. Proved in Coq (unbounded traces, any number of threads): lockset_ok T -> every valid execution annotated by T is "
              "happens-before race free (program order, go/fork, Wait/join, Unlock->Lock incl. RWMutex modes, k-th send -> k-th receive, close -> receive on signal channels); "
-             "checked by vm_compute: offenders(extracted table) = the recorded open findings, lockset_ok(table minus those classes) = true. "
+             "checked by vm_compute, finite and exact: lockset_ok(table extracted from the current tree) = true, no class exempted (C18_table_ok); the entries as extracted before the repairs "
+             "(/repo 25abf76 output buffers, 3d636e5 matrix ref) are kept as the named pre-fix variant and offend class by class (C18_prefix_variant_refuted, C18_unlocked_write_refuted). "
              "NOT proved: that the Go code's accesses are exactly the table's entries (syntactic extraction with go/parser+go/types: every struct field = object class, R/W by position, "
-             "locks by a structured walk of each function, concurrency phase by call-graph reachability from (*Executor).RunTask, per-call freshness by a local/parameter/result fixpoint, "
-             "assumptions listed in Extracted.race_assumptions) and that the race detector agrees with the model (sampled). "
+             "locks by a structured walk of each function incl. locks held by every caller of an unexported helper, concurrency phase by call-graph reachability from (*Executor).RunTask, "
+             "per-call freshness DERIVED by a fixpoint over locals, parameters, results, values stored into struct fields (assignments and composite literals), elements appended to slice fields, "
+             "loop variables over such fields, and arguments of calls through named func types (functional options), with publication-escape tracking; "
+             "one hand-written assumption remains, emitted as Extracted.race_assumptions and that the race detector agrees with the model (sampled). "
              "cases: each case = a generated Taskfile tree (acyclic task graph with parallel deps, duplicated deps, nested task calls, run: once/when_changed, for-loops over lists/vars/matrix incl. ref: rows, "
              "dynamic sh: vars and env, dotenv, requires, preconditions, status, sources/generates, dir, includes, wildcard tasks, defer, pipelines, output interleaved/group/prefixed) run by the real Executor "
              "(optionally --parallel targets, concurrency limit, verbose, force) in a child process of a driver built with -race, under 3 GOMAXPROCS values per program, free-running, free-running with seed-derived delays in the writers, or with "
@@ -38,10 +41,14 @@ PROPS = {
             "PARTIAL: the access table is extracted syntactically; accesses through reflection, third-party code and function values are not seen",
             "per-call copies (scope 'fresh' in the table) are confined to the goroutine that made them or handed over at a go statement; closures capturing them are not tracked",
             "functions not reachable from (*Executor).RunTask run only on the calling goroutine before any task goroutine exists (watch mode and the concurrent Taskfile reader are outside this property)",
-            "the freshness assumptions emitted as Extracted.race_assumptions (one *Call per call; call.Vars is the callee's copy; compiled task's Cmds are DeepCopies; fingerprint options mutate their own config)",
+            "the one hand-written freshness assumption of the extractor (Extracted.race_assumptions): `task.(*Executor).RunTask :: param:call` -- every target / dep / task call gets its own *Call "
+            "(API boundary: Run's callers build one per target). The former six others (call.Vars is the callee's copy; the compiled task's Cmds are DeepCopies -- the one that hid seeded C18-2; "
+            "the four fingerprint options mutate their caller's fresh config) are now checked derivations of the extractor",
             "Go's happens-before edges used by the model are those of the Go memory model for sync.Mutex/RWMutex, go statements, errgroup.Wait, channel send/receive/close",
         ],
-        trusted=["the Go race detector (ThreadSanitizer runtime) as the dynamic oracle; it only flags races on executions that actually happen",
+        trusted=["extractor assumption (hand-written, keyed on function+expression, falls back to 'shared' if the code changes shape): task.(*Executor).RunTask :: param:call = one *Call object per call",
+                 "extractor allow-list of non-mutating method names on third-party containers (raceReadOnlyMethods: Get, Len, Keys, Values, Front, ..., SpellCheck of sajari/fuzzy which locks internally)",
+                 "the Go race detector (ThreadSanitizer runtime) as the dynamic oracle; it only flags races on executions that actually happen",
                  "modelled, not verified: mvdan/sh (runs pipeline stages on separate goroutines), orderedmap, bytes.Buffer"],
     ),
 }
